@@ -32,6 +32,29 @@ def generic_mc(work, module, name, constants, invariants=(), properties=(), spec
     return r
 
 
+def tlaps_proof(work, module):
+    """re-establish a TLAPS proof (a statement about the MODEL for all values of its constants); environmental trouble is a note, never a verdict"""
+    import re
+    import subprocess
+    d = work.sub("tlaps")
+    vlib.spec_copy(d)
+    t0 = time.time()
+    try:
+        p = subprocess.run(["tlapm", "--threads", str(max(2, vlib.NCPU // 2)), module], cwd=d, stdout=subprocess.PIPE, stderr=subprocess.STDOUT,
+                           text=True, timeout=900)
+        out = p.stdout
+    except Exception as e:  # missing tool, timeout
+        out = "tlapm did not run: %s" % e
+    m = re.search(r"All (\d+) obligations? proved", out)
+    r = dict(module=module, obligations_proved=int(m.group(1)) if m else 0, all_proved=bool(m), wall_s=round(time.time() - t0, 1))
+    if not m:
+        f = re.search(r"(\d+)/(\d+) obligations failed", out)
+        r["failed"] = f.group(0) if f else out[-300:]
+        print("MODEL-NOTE: the TLAPS proof %s was not re-established (%s): a statement about the model, not a verdict" % (module, r["failed"]))
+    log("[tlaps] %s: %s obligations proved (%.0fs)" % (module, r["obligations_proved"] if m else "NOT all", r["wall_s"]))
+    return r
+
+
 def mc_summary(mcs):
     return [{"scope": m["scope"], "distinct_states": m["distinct"], "generated": m["generated"], "holds_in_model": m["ok"],
              "violated": m.get("violated"), "wall_s": m.get("wall_s")} for m in mcs]
@@ -388,9 +411,11 @@ def seat_check(prop, tier, seed, work, replay):
         mcs.append(generic_mc(work, "MCSeat.tla", "mcseat%d" % mx,
                               dict(MaxSeats=str(mx), Players=players, Props=vlib.tla_set([prop]), Ignore=SEAT_IGNORE),
                               invariants=["NoCrash"] if prop == "C18" else [], properties=["StepHolds"], view="View", timeout=3400))
+    proof = None
     if prop == "C18":
         mcs.append(generic_mc(work, "SeatJoinConc.tla", "conc", dict(Procs="{1,2,3}", MaxSeats="2", UseMutex="TRUE"),
                               invariants=["MutualExclusion", "EpisodeOK"]))
+        proof = tlaps_proof(work, "SeatJoinProof.tla")
     mc_cmp = generic_mc(work, "MCSeat.tla", "mcseatcmp", dict(MaxSeats="3", Players="{1,2,3,4}", Props="{}", Ignore="{}"), view="CmpView")
     for m in mcs:
         if not m["ok"]:
@@ -505,7 +530,7 @@ def seat_check(prop, tier, seed, work, replay):
         "traces_validated_against_impl": int(cnt.get("runs", 0)) + int(cnt.get("conc.episodes", 0)),
         "samples": [{"calls": [[x["op"], x["seat"], x["p"], x["got"], x["res"]] for x in vlib.read_lines(rf, 2, 16)]}],
         "model_checking": mc_summary(mcs + [mc_cmp]),
-        "both_sides_exploration": both,
+        "both_sides_exploration": both, "tlaps_proof": proof,
         "real_calls_validated": res["lines"], "real_calls_by_source": stats, "tlc_scripts": nsim,
         "antecedents_exercised_on_real_code": cnt,
         "model_drift_lines": len(res["drift"]), "known_findings_hit": known_hit,
